@@ -156,9 +156,10 @@ pub(crate) unsafe fn client_channel_read_coils(
     range: crate::ffi::AddressRange,
     callback: crate::ffi::BitReadCallback,
 ) -> Result<(), ffi::ParamError> {
+    // wrapped first: the callback completes exactly once even if the call is rejected below
+    let callback = sfio_promise::wrap(callback);
     let channel = channel.as_mut().ok_or(ffi::ParamError::NullParameter)?;
     let range = AddressRange::try_from(range.start, range.count)?;
-    let callback = sfio_promise::wrap(callback);
     channel
         .inner
         .read_coils(param.into(), range, |res| callback.complete(res))?;
@@ -171,9 +172,10 @@ pub(crate) unsafe fn client_channel_read_discrete_inputs(
     range: crate::ffi::AddressRange,
     callback: crate::ffi::BitReadCallback,
 ) -> Result<(), ffi::ParamError> {
+    // wrapped first: the callback completes exactly once even if the call is rejected below
+    let callback = sfio_promise::wrap(callback);
     let channel = channel.as_mut().ok_or(ffi::ParamError::NullParameter)?;
     let range = AddressRange::try_from(range.start, range.count)?;
-    let callback = sfio_promise::wrap(callback);
     channel
         .inner
         .read_discrete_inputs(param.into(), range, |res| callback.complete(res))?;
@@ -186,9 +188,10 @@ pub(crate) unsafe fn client_channel_read_holding_registers(
     range: crate::ffi::AddressRange,
     callback: crate::ffi::RegisterReadCallback,
 ) -> Result<(), ffi::ParamError> {
+    // wrapped first: the callback completes exactly once even if the call is rejected below
+    let callback = sfio_promise::wrap(callback);
     let channel = channel.as_mut().ok_or(ffi::ParamError::NullParameter)?;
     let range = AddressRange::try_from(range.start, range.count)?;
-    let callback = sfio_promise::wrap(callback);
     channel
         .inner
         .read_holding_registers(param.into(), range, |res| callback.complete(res))?;
@@ -201,9 +204,10 @@ pub(crate) unsafe fn client_channel_read_input_registers(
     range: crate::ffi::AddressRange,
     callback: crate::ffi::RegisterReadCallback,
 ) -> Result<(), ffi::ParamError> {
+    // wrapped first: the callback completes exactly once even if the call is rejected below
+    let callback = sfio_promise::wrap(callback);
     let channel = channel.as_mut().ok_or(ffi::ParamError::NullParameter)?;
     let range = AddressRange::try_from(range.start, range.count)?;
-    let callback = sfio_promise::wrap(callback);
     channel
         .inner
         .read_input_registers(param.into(), range, |res| callback.complete(res))?;
@@ -216,8 +220,9 @@ pub(crate) unsafe fn client_channel_write_single_coil(
     bit: crate::ffi::BitValue,
     callback: crate::ffi::WriteCallback,
 ) -> Result<(), ffi::ParamError> {
-    let channel = channel.as_mut().ok_or(ffi::ParamError::NullParameter)?;
+    // wrapped first: the callback completes exactly once even if the call is rejected below
     let callback = sfio_promise::wrap(callback);
+    let channel = channel.as_mut().ok_or(ffi::ParamError::NullParameter)?;
     channel
         .inner
         .write_single_coil(param.into(), bit.into(), |res| callback.complete(res))?;
@@ -230,8 +235,9 @@ pub(crate) unsafe fn client_channel_write_single_register(
     register: crate::ffi::RegisterValue,
     callback: crate::ffi::WriteCallback,
 ) -> Result<(), ffi::ParamError> {
-    let channel = channel.as_mut().ok_or(ffi::ParamError::NullParameter)?;
+    // wrapped first: the callback completes exactly once even if the call is rejected below
     let callback = sfio_promise::wrap(callback);
+    let channel = channel.as_mut().ok_or(ffi::ParamError::NullParameter)?;
     channel
         .inner
         .write_single_register(param.into(), register.into(), |res| callback.complete(res))?;
@@ -245,10 +251,11 @@ pub(crate) unsafe fn client_channel_write_multiple_coils(
     items: *mut crate::BitList,
     callback: crate::ffi::WriteCallback,
 ) -> Result<(), ffi::ParamError> {
+    // wrapped first: the callback completes exactly once even if the call is rejected below
+    let callback = sfio_promise::wrap(callback);
     let channel = channel.as_mut().ok_or(ffi::ParamError::NullParameter)?;
     let items = items.as_ref().ok_or(ffi::ParamError::NullParameter)?;
     let args = WriteMultiple::from(start, items.inner.clone())?;
-    let callback = sfio_promise::wrap(callback);
     channel
         .inner
         .write_multiple_coils(param.into(), args, |res| callback.complete(res))?;
@@ -262,10 +269,11 @@ pub(crate) unsafe fn client_channel_write_multiple_registers(
     items: *mut crate::RegisterList,
     callback: crate::ffi::WriteCallback,
 ) -> Result<(), ffi::ParamError> {
+    // wrapped first: the callback completes exactly once even if the call is rejected below
+    let callback = sfio_promise::wrap(callback);
     let channel = channel.as_mut().ok_or(ffi::ParamError::NullParameter)?;
     let items = items.as_ref().ok_or(ffi::ParamError::NullParameter)?;
     let args = WriteMultiple::from(start, items.inner.clone())?;
-    let callback = sfio_promise::wrap(callback);
     channel
         .inner
         .write_multiple_registers(param.into(), args, |res| callback.complete(res))?;
